@@ -2,6 +2,7 @@
 large arrays are described by *recipes* (small JSON dicts) and expanded by
 pure functions, so that cases shrink, hash and replay as plain JSON."""
 import math
+import os
 
 import numpy as np
 from hypothesis import strategies as st
@@ -25,6 +26,19 @@ def log_floats(lo, hi):
 seeds32 = st.integers(0, 2 ** 32 - 1)
 
 
+def choice(seq):
+    """sampled_from with the list rotated by the shard index (VF_ROT): Hypothesis favours early
+    elements, rotating per shard balances the union of the shards. The case stores the value."""
+    seq = list(seq)
+    rot = int(os.environ.get("VF_ROT", "0")) % len(seq)
+    return st.sampled_from(seq[rot:] + seq[:rot])
+
+
+def chance(k):
+    """True with probability about 1/k (st.integers is biased towards 0, sampled_from is not)."""
+    return st.sampled_from([True] + [False] * (k - 1))
+
+
 def signed(lo, hi):
     """Floats of either sign with magnitude in [lo, hi] (no zeros, no subnormals)."""
     return st.builds(lambda neg, v: -v if neg else v, st.booleans(), floats(lo, hi))
@@ -37,7 +51,7 @@ def signed(lo, hi):
 @st.composite
 def signal_recipe(draw, kinds=("noise", "sines", "chirp", "spikes", "const_noise", "raw"), scale_exp=(-9, 9),
                   allow_burst=True):
-    kind = draw(st.sampled_from(kinds))
+    kind = draw(choice(kinds))
     r = dict(kind=kind, scale_exp=draw(st.integers(*scale_exp)) if scale_exp else 0)
     if kind in ("noise", "const_noise", "spikes"):
         r["seed"] = draw(seeds32)
@@ -106,7 +120,7 @@ def expand_signal(r, n):
 def recording_recipe(draw, n=None, n_range=(16, 600), dt=None, scale_exp=(-9, 9), kinds=None, dfn_range=(-720, 720)):
     """Three component recipes of equal length plus dt and orientation."""
     n = draw(st.integers(*n_range)) if n is None else n
-    dt = draw(st.sampled_from(DTS)) if dt is None else dt
+    dt = draw(choice(DTS)) if dt is None else dt
     kw = dict(scale_exp=None)
     if kinds:
         kw["kinds"] = kinds
@@ -144,14 +158,14 @@ DEFAULT_BW = {"konno_and_ohmachi": 40.0, "parzen": 0.5, "linear_rectangular": 0.
 
 @st.composite
 def operator_and_bandwidth(draw, operators=OPERATORS):
-    op = draw(st.sampled_from(operators))
+    op = draw(choice(operators))
     if op == "savitzky_and_golay":
         bw = draw(st.sampled_from([1, 3, 5, 7, 9, 11, 13, 15, 17, 19, 21]))
         if draw(st.booleans()):
             bw = float(bw)
     else:
         bw = DEFAULT_BW[op] * draw(log_floats(10 ** -0.5, 10 ** 0.5))
-        if draw(st.integers(0, 3)) == 0:
+        if draw(chance(4)):
             bw = DEFAULT_BW[op]
     return op, bw
 
@@ -221,7 +235,12 @@ def center_frequencies(draw, op, bw, df, fnyq, min_size=1, max_size=40, fmin_flo
         vals = np.geomspace(lo, hi, k) if kind == "geom" else np.linspace(lo, hi, k)
         return sorted(set(float(v) for v in vals))
     vals = draw(st.lists(log_floats(fmin, fmax), min_size=min_size, max_size=max_size, unique=True))
-    return sorted(vals)
+    order = draw(st.sampled_from(["asc", "asc", "asc", "desc", "as-drawn"]))
+    if order == "asc":
+        return sorted(vals)
+    if order == "desc":
+        return sorted(vals, reverse=True)
+    return vals
 
 
 @st.composite
@@ -229,7 +248,7 @@ def processing_spec(draw, n_max, methods=ALL_METHODS, operators=OPERATORS, polic
                     fft_choices=(None, None, 2 ** 15, 2 ** 16, 256, 64)):
     """JSON description of a processing configuration (without centre frequencies: the caller draws
     them with center_frequencies() from the largest bin spacing 1/(nfft*dt_min) and the smallest Nyquist)."""
-    method = draw(st.sampled_from(methods))
+    method = draw(choice(methods))
     fft_n = draw(st.sampled_from(fft_choices))
     nfft = 2 ** 15
     while nfft <= n_max:
@@ -238,7 +257,7 @@ def processing_spec(draw, n_max, methods=ALL_METHODS, operators=OPERATORS, polic
         nfft = max(nfft, fft_n)
     op, bw = draw(operator_and_bandwidth(operators))
     spec = dict(method=method, op=op, bw=bw, width=draw(st.one_of(floats(0.001, 1), st.sampled_from([0.0, 0.1, 0.2, 1.0]))),
-                fft_n=fft_n, policy=policy or draw(st.sampled_from(POLICIES)))
+                fft_n=fft_n, policy=policy or draw(choice(POLICIES)))
     spec["_nfft"] = nfft
     if method == "single_azimuth":
         spec["azimuth"] = draw(st.one_of(floats(-360, 720), st.sampled_from([0.0, 45.0, 90.0, 180.0, 20.0])))
